@@ -1062,7 +1062,7 @@ func (prop) Run(scx driver.Scenario, ch *sim.Choices, keep bool) *driver.Result 
 				r2 := w.build(0, 0, false)
 				builds++
 				if r2.ok {
-					viol, detail = "cached-build-fails", fmt.Sprintf("step %d: the build that reused the cache failed (%s) although a clean build of the same sources succeeds: an entry left by an interrupted or failed build was trusted", si, lastLines(r.buildLog, 2))
+					viol, detail = "cached-build-fails", fmt.Sprintf("step %d: the build that reused the cache failed (%s) although a clean build of the same sources succeeds: a cache entry was used that is incomplete (left by an interrupted or failed build) or whose stored metadata are not what a compiling build uses", si, lastLines(r.buildLog, 2))
 					tags = append(tags, "clock:"+sc.Clock)
 					if afterFault {
 						tags = append(tags, "after-injected-fault")
